@@ -231,6 +231,7 @@ class _RecOptimiser:
 class RIMUpdate(SxContract):
     """RIM._update_weights(weights, gradients): the direction reaching the optimiser is
     gradients + d/dW [reg * ||W||^2] on the weight matrix and unchanged on the bias (documented l2 penalty)."""
+    float_replay = True
     fn = "gemclus.linear._linear_geminis.RIM._update_weights"
 
     def __init__(self, d, K, solver="adam"):
